@@ -110,7 +110,7 @@ func (r *Run) sortedOrigin(fn *ssa.Function, v ssa.Value, use ssa.Instruction, d
 
 // C19 — result statistics.
 func C19(p *Prog, r *Run) {
-	r.Explanation = "Decided: (1) every Floats method except Sum returns math.NaN() (both elements for MeanVariance) on the path where len(x)==0 and that test dominates every gonum call of the method (a method built only from other accessors of the type, which are NaN there themselves, needs no test of its own); (2) gonum preconditions, keyed by the library function: stat.Quantile gets a constant level in [0,1], the Empirical kind, nil weights and a slice on which a sort call dominates the use (a sorted copy), floats.Min/Max never see an empty slice; (3) on every path for a non-empty series each method returns the quantity of its definition (Mean→stat.Mean, …, Median/Q25/Q75→Quantile 0.5/0.25/0.75), applied to the series itself without weights, written either as the canonical gonum call or as an expression that gonum v0.14.0 defines to be the same value (stat.Variance = second result of stat.MeanVariance, stat.StdDev = second result of stat.MeanStdDev = math.Sqrt of the variance, stat.Mean = first result of MeanVariance/MeanStdDev = floats.Sum/float64(len), floats.Min = x[floats.MinIdx(x)], another accessor of the type for its own quantity; table with reasons in robust_c19.go), the population variants (divide by n) and hand-written loops are not accepted; (4) the experiment/trial aggregates are built from the recorded generations as their definitions say (success rate = solved/len, solved = any generation solved, epochs per trial = len(Generations), diversity, best organism chosen on a fresh slice; the solved count is the loop counter on every return, never a remembered value); (5) the complexity of an organism is Complexity() of the network returned by its Phenotype(), asked only when Phenotype() reported no error, with the math.MaxInt sentinel confined to a missing organism/champion or a failed phenotype. Results are followed through phi nodes edge by edge, so an early return and a single return of a merged value are the same to the rules; a quantile level may be a parameter of an unexported helper when every call in the repository passes a constant in [0,1]. A fixed-size result slice that is filled branch by branch and returned once is read path by path (the elements stored last on each acyclic path, under the branch outcomes of that path). A series element produced by a capture-free function literal that an inlined helper received as its function-valued argument is what the literal returns for these arguments; a path of the literal returning the constant 0 counts as leaving the freshly made element untouched when the store is the only writer of the slice and writes each element at most once. Fourth round: the emptiness test is read in any spelling (a branch outcome is turned into a comparison that holds and decided with len >= 0; a test that only bounds the length establishes neither emptiness nor its opposite); the data of a quantile hold the elements of the series (a copy made before the sort); (8) counts and empty values are exact: the number of solved trials is incremented once for every trial with Solved() by a loop that visits every trial and runs for every experiment with trials (path enumeration of one iteration, path-resolved increments), the winner averages sum WinnerStatistics()#k over exactly those trials, return the -1 sentinel only where that count is 0 and the quotients only where it is not, every mean over a list returns its empty value only where len==0 is established and divides only where len!=0 is, Experiment.Solved / Trial.Solved are existence statements over all records, Trial.WinnerStatistics yields the winner generation's fields where a winner is known, 0 only where the scan found none and -1 only without generations; (9) a series element is stored in exactly the iterations in which its statistic is defined; (10) Trial.BestOrganism collects the champion of every generation (or of exactly the solved ones) and returns the first element of the collection sorted in descending order exactly where it is non-empty. Not decided: gonum's numerics; full recomputation equalities; the recording itself (FillPopulationStatistics)."
+	r.Explanation = "Decided: (1) every Floats method except Sum returns math.NaN() (both elements for MeanVariance) on the path where len(x)==0 and that test dominates every gonum call of the method (a method built only from other accessors of the type, which are NaN there themselves, needs no test of its own); (2) gonum preconditions, keyed by the library function: stat.Quantile gets a constant level in [0,1], the Empirical kind, nil weights and a slice on which a sort call dominates the use (a sorted copy), floats.Min/Max never see an empty slice; (3) on every path for a non-empty series each method returns the quantity of its definition (Mean→stat.Mean, …, Median/Q25/Q75→Quantile 0.5/0.25/0.75), applied to the series itself without weights, written either as the canonical gonum call or as an expression that gonum v0.14.0 defines to be the same value (stat.Variance = second result of stat.MeanVariance, stat.StdDev = second result of stat.MeanStdDev = math.Sqrt of the variance, stat.Mean = first result of MeanVariance/MeanStdDev = floats.Sum/float64(len), floats.Min = x[floats.MinIdx(x)], another accessor of the type for its own quantity; table with reasons in robust_c19.go), the population variants (divide by n) and hand-written loops are not accepted; (4) the experiment/trial aggregates are built from the recorded generations as their definitions say (success rate = solved/len, solved = any generation solved, epochs per trial = len(Generations), diversity, best organism chosen on a fresh slice; the solved count is the loop counter on every return, never a remembered value); (5) the complexity of an organism is Complexity() of the network returned by its Phenotype(), asked only when Phenotype() reported no error, with the math.MaxInt sentinel confined to a missing organism/champion or a failed phenotype. Results are followed through phi nodes edge by edge, so an early return and a single return of a merged value are the same to the rules; a quantile level may be a parameter of an unexported helper when every call in the repository passes a constant in [0,1]. A fixed-size result slice that is filled branch by branch and returned once is read path by path (the elements stored last on each acyclic path, under the branch outcomes of that path). A series element produced by a capture-free function literal that an inlined helper received as its function-valued argument is what the literal returns for these arguments; a path of the literal returning the constant 0 counts as leaving the freshly made element untouched when the store is the only writer of the slice and writes each element at most once. Fourth round: the emptiness test is read in any spelling (a branch outcome is turned into a comparison that holds and decided with len >= 0; a test that only bounds the length establishes neither emptiness nor its opposite); the data of a quantile hold the elements of the series (a copy made before the sort); (8) counts and empty values are exact: the number of solved trials is incremented once for every trial with Solved() by a loop that visits every trial and runs for every experiment with trials (path enumeration of one iteration, path-resolved increments), the winner averages sum WinnerStatistics()#k over exactly those trials, return the -1 sentinel only where that count is 0 and the quotients only where it is not, every mean over a list returns its empty value only where len==0 is established and divides only where len!=0 is, Experiment.Solved / Trial.Solved are existence statements over all records, Trial.WinnerStatistics yields the winner generation's fields where a winner is known, 0 only where the scan found none and -1 only without generations; (9) a series element is stored in exactly the iterations in which its statistic is defined; (10) Trial.BestOrganism collects the champion of every generation (or of exactly the solved ones) and returns the first element of the collection sorted in descending order exactly where it is non-empty. Seventh round: a series built by appending exactly one value per iteration of a loop over every element, onto a slice that starts empty and has no other writer, is read like make+index (the value appended for element i is entry i; an appended constant 0 is an element left at 0); an element read through the first result of a lookup needs the lookup's found-flag (or a non-nil result) on its path; an integer handed out of a search with a negative value for `none` (a phi that is not carried round a loop) is read alternative by alternative - `return i >= 0` is true on the edge of the hit and false on exhaustion, a use under `i >= 0` knows what held on the edge of the hit and reads the element found, and the winner generation read must be the one whose Solved was seen; local closures are inlined at every call of a statement (normaliser) and their definition is dropped when no call is left, so a captured counter is an ordinary value again. Not decided: gonum's numerics; full recomputation equalities; the recording itself (FillPopulationStatistics)."
 	r.Rule("C19.1", "empty guard: each Floats method except Sum returns NaN when len(x)==0, and the emptiness test dominates the library call", func() {
 		n := 0
 		for _, sp := range floatsTable {
